@@ -64,10 +64,17 @@ def forms(pid, rng):
         for nargs in (0, 4):
             m = rpc.call(rng.getrandbits(32), 100000, 2, 3, args=rb(nargs))
             out.append((m, {0, 1, 2, 3, 15, 16, 17, 18, 19, 23}))
+        # AUTH_SYS credentials as every real client sends them (stamp, machine name, uid, gid, gids), AUTH_SHORT verifier
+        cred = struct.pack("!I", rng.getrandbits(32)) + rpc.xdr_string(b"scanner") + struct.pack("!III", 0, 0, 0)
+        out.append((rpc.call(rng.getrandbits(32), 100000, 2, 4, cred=cred, cred_flavor=1), {0, 1, 2, 3, 15, 16, 17, 18, 19, 23}))
+        out.append((rpc.call(rng.getrandbits(32), 100000, 3, 0, cred=cred, cred_flavor=1, verf=rb(8), verf_flavor=2), {0, 1, 2, 3, 15, 16, 17, 18, 19, 23}))
     elif pid == RPC_TCP:
         for nargs in (0, 4, 8, 0x100 - 40):
             m = rpc.record(rpc.call(rng.getrandbits(32), 100000, 2, 3, args=rb(nargs)))
             out.append((m, {4, 5, 6, 7, 19, 20, 21, 22, 23, 27}))
+        cred = struct.pack("!I", rng.getrandbits(32)) + rpc.xdr_string(b"scanner") + struct.pack("!III", 0, 0, 0)
+        out.append((rpc.record(rpc.call(rng.getrandbits(32), 100000, 2, 4, cred=cred, cred_flavor=1)), {4, 5, 6, 7, 19, 20, 21, 22, 23, 27}))
+        out.append((rpc.record(rpc.call(rng.getrandbits(32), 100000, 4, 0, cred=rb(4), cred_flavor=1, verf=rb(12), verf_flavor=2)), {4, 5, 6, 7, 19, 20, 21, 22, 23, 27}))
     elif pid in (SMB1, SMB2):
         for n in (1, 2, 3, 5, 9):
             if pid == SMB1:
@@ -301,7 +308,9 @@ def shard(ctx, budget_s, learn):
         for pidk, mask in comp.items():
             end = isinstance(pidk, tuple)
             pid = pidk[1] if end else pidk
-            for full, free in forms(pid, rng):
+            fs = forms(pid, rng)
+            rng.shuffle(fs)         # every form gets its turn as the witness of some node
+            for full, free in fs:
                 if len(full) < n.pos + (0 if end else 1):
                     continue
                 t = template_of(full, free)
